@@ -182,4 +182,3 @@ func ZZ_C11_Deposit() {
 	}
 	vrt.Assert("c11.deposit.nobody-else", env.Bank.Balance(zzModuleAddr, "hub").IsZero() && env.Bank.Balance(types.TempAddress, "hub").IsZero())
 }
-
